@@ -83,12 +83,41 @@ def build(rng, facts, name):
             js = b.emit("kstats " + fresh); b.emit("kstats c", ("same", js))
     return b
 
+def build_same_length(rng, facts, name):
+    """State that a read leaves behind must not survive Clear: a paginated (or any) sketch takes n thinly spread unit values (they stay in the buffer), is READ
+    (observation, quantile, encoding or iteration: each sorts the buffer), cleared, and then takes exactly n (sometimes n-1 / n+1) new values in descending or
+    random order - the lengths coincide with those at the last read - before it is compared with a fresh twin that was never read."""
+    spec = rng.choice(sorted(facts)); b = Builder(name)
+    kp = rng.choice(["pag", "pag", "pag", "sparse", "dense"]); wide = kp != "dense"; exact = rng.random() < 0.2
+    b.knew("c", spec, kp, kp, exact)
+    for cyc in range(rng.choice([1, 1, 2])):
+        n = rng.choice([2, 3, 5, 8, 20, 40, 70, 100])
+        for v in rand_values(rng, n, -30 if wide else -2, 30 if wide else 2, zeros=0.0, signs=(1,)): b.kadd("c", v)
+        for rd in rng.sample(["kobs c", "q c %s" % f2h(rng.random()), "kenc er c 0", "kforeach c 0", "ktoproto PR c"], rng.choice([1, 1, 2])):
+            b.emit(rd, "ok" if rd.startswith(("kenc", "ktoproto")) else None)
+        b.kclear("c"); fresh = "f%d" % cyc; b.knew(fresh, spec, kp, kp, exact)
+        m = max(1, n + rng.choice([0, 0, 0, 0, -1, 1]))
+        vs = rand_values(rng, m, -30 if wide else -2, 30 if wide else 2, zeros=0.0, signs=(1,))
+        if rng.random() < 0.6: vs = sorted(vs, reverse=True)
+        if rng.random() < 0.4:          # ... or the new entries arrive through a decode (the paginated store appends decoded index deltas to its buffer directly)
+            b.knew("sd", spec, "pag", "pag", exact)
+            for v in vs: b.kadd("sd", v)
+            b.emit("kenc bsd sd 0", "ok"); b.emit("kdecinto c bsd", "ok"); b.emit("kdecinto %s bsd" % fresh, "ok"); b.vals["c"] = list(b.vals["sd"]); b.vals[fresh] = list(b.vals["sd"])
+        else:
+            for v in vs: b.kadd("c", v); b.kadd(fresh, v)
+        for q in [0.0, rng.random(), 1.0]:
+            jq = b.emit("q %s %s" % (fresh, f2h(q))); b.emit("q c %s" % f2h(q), ("same", jq))
+        jf = b.emit("kforeach %s 0" % fresh); b.emit("kforeach c 0", ("same", jf))
+        j = b.emit("kobs " + fresh); b.emit("kobs c", ("same", j))
+        b.emit("ktoproto PF %s" % fresh, "ok"); jp = b.emit("kpobs PF"); b.emit("ktoproto PC c", "ok"); b.emit("kpobs PC", ("same", jp))
+    return b
+
 def run(tier, seed):
     rng = random.Random(seed)
     ok, log = core.build_vrun()
     specs = spec_list(rng, 10 if tier == "quick" else 40)
     facts = sketchcheck.learn_specs("C15", specs) if ok else {}
-    builders = [build(rng, facts, "k%d" % i) for i in range(300 if tier == "quick" else 8000)] if facts else []
+    builders = ([build(rng, facts, "k%d" % i) for i in range(300 if tier == "quick" else 8000)] + [build_same_length(rng, facts, "sl%d" % i) for i in range(60 if tier == "quick" else 1200)]) if facts else []
     return sketchcheck.run_sketch_property(
         "C15", tier, seed, builders,
         "pairs (history before Clear, history after Clear) on sketches of every store kind (collapsing ones with small limits so that the collapsed state is reached) and both variants, 1-3 "
